@@ -16,8 +16,6 @@ Definition nosync (t : task) : bool := forallb (fun c => negb (is_ksync c)) (t_c
 Definition is_bkube (t : task) : bool := match t_btype t with BKube => true | _ => false end.
 Definition is_hookrun (t : task) : bool := match t_type t with HookRun => true | _ => false end.
 Definition is_es (t : task) : bool := match t_type t with EnableSched => true | _ => false end.
-(* a task made of Synchronization contexts only *)
-Definition allsync (t : task) : bool := is_bkube t && negb (nilb (t_ctxs t)) && forallb is_ksync (t_ctxs t).
 
 (* the elements satisfying [p] come first *)
 Fixpoint first_then {A} (p : A -> bool) (l : list A) : bool :=
@@ -50,14 +48,6 @@ Definition tk (cfg : config) (unl : list N) (t : task) : bool :=
   | _ => nilb (t_ctxs t) && negb (is_st t)
   end.
 
-(* what may stand in front of an EnableScheduleBindings task *)
-Definition bootish (t : task) : bool := negb (is_hookrun t) || is_st t || allsync t.
-Fixpoint es (l : list task) : bool :=
-  match l with
-  | [] => true
-  | t :: r => (negb (existsb is_es r) || bootish t) && es r
-  end.
-
 Definition hook_mons (cfg : config) (h : N) : list N :=
   match find_hook cfg h with Some x => map kb_mon (h_kube x) | None => [] end.
 
@@ -78,7 +68,6 @@ Definition qi (cfg : config) (unl : list N) (items : list task) : bool :=
   forallb (tk cfg unl) items
   && first_then is_ksync (flat_map t_ctxs items)
   && first_then is_st items
-  && es items
   && c5 cfg unl items.
 
 (* tasks of the named queues *)
@@ -87,12 +76,10 @@ Definition plain (t : task) : bool := is_hookrun t && nosync t && negb (is_st t)
 Definition qinv (cfg : config) (unl : list N) (q : qstate) : bool :=
   qi cfg unl (q_items q)
   && (match q_running q, q_items q with
-      | Some sy, t :: _ => is_hookrun t && should_run (hook_v0 cfg (t_hook t)) t
-                           && (sy || q_delay q || negb (allsync t))
+      | Some _, t :: _ => is_hookrun t && should_run (hook_v0 cfg (t_hook t)) t
       | _, _ => true
       end)
-  && (N.eqb (q_name q) 0
-      || forallb plain (q_items q) && match q_running q with Some true => false | _ => true end).
+  && (N.eqb (q_name q) 0 || forallb plain (q_items q)).
 
 Definition sinv (cfg : config) (s : state) : bool :=
   forallb (qinv cfg (unlocked s)) (queues s)
@@ -223,7 +210,7 @@ Qed.
 
 Lemma qi_mono cfg a b l : sub a b -> qi cfg a l = true -> qi cfg b l = true.
 Proof.
-  intros S. unfold qi. rewrite !andb_true_iff. intros [[[[H1 H2] H3] H4] H5]. repeat split; auto.
+  intros S. unfold qi. rewrite !andb_true_iff. intros [[[H1 H2] H3] H5]. repeat split; auto.
   - apply forallb_forall. intros t Ht. apply (tk_mono cfg a b t S). apply (forallb_In _ _ t H1 Ht).
   - now apply (c5_mono cfg l a b).
 Qed.
@@ -247,15 +234,6 @@ Proof.
   unfold nosync, is_sync. destruct (t_btype t); auto. destruct (t_ctxs t) as [|c r]; auto.
   simpl. unfold is_ksync. destruct (c_kind c); simpl; intros H; try reflexivity; discriminate H.
 Qed.
-
-Lemma allsync_is_sync t : allsync t = true -> is_sync t = true.
-Proof.
-  unfold allsync, is_sync, is_bkube. destruct (t_btype t); try discriminate.
-  destruct (t_ctxs t) as [|c r]; [discriminate|]. simpl. unfold is_ksync. destruct (c_kind c); auto; discriminate.
-Qed.
-
-Lemma not_sync_not_allsync t : is_sync t = false -> allsync t = false.
-Proof. intros H. destruct (allsync t) eqn:A; [|reflexivity]. apply allsync_is_sync in A. congruence. Qed.
 
 (* the first context of a task that is not a Synchronization is not a Synchronization context *)
 Lemma head_ctx_not_sync t c r :
@@ -317,33 +295,6 @@ Proof.
     + inversion H; subst. split; [reflexivity | constructor].
 Qed.
 
-Lemma es_suffix a b : es (a ++ b) = true -> es b = true.
-Proof.
-  induction a as [|x r IH]; intros H; [exact H|]. simpl in H. apply andb_true_iff in H as [_ H]. now apply IH.
-Qed.
-
-Lemma es_front a b : es (a ++ b) = true -> existsb is_es b = true -> forallb bootish a = true.
-Proof.
-  induction a as [|x r IH]; intros H E; [reflexivity|]. simpl in *.
-  apply andb_true_iff in H as [H1 H2]. rewrite (IH H2 E), andb_true_r.
-  rewrite existsb_app, E, orb_true_r in H1. exact H1.
-Qed.
-
-Lemma es_app_boot a b : forallb bootish a = true -> es b = true -> es (a ++ b) = true.
-Proof.
-  induction a as [|x r IH]; intros H E; [exact E|]. simpl in *.
-  apply andb_true_iff in H as [H1 H2]. rewrite H1, orb_true_r. simpl. now apply IH.
-Qed.
-
-Lemma es_snoc a b : es a = true -> existsb is_es b = false -> es (a ++ b) = true.
-Proof.
-  induction a as [|x r IH]; intros H E; simpl in *.
-  - induction b as [|y b IHb]; [reflexivity|]. simpl in *. apply orb_false_iff in E as [E1 E2].
-    rewrite E2. simpl. now apply IHb.
-  - apply andb_true_iff in H as [H1 H2]. rewrite (IH H2 E), andb_true_r.
-    rewrite existsb_app, E, orb_false_r. exact H1.
-Qed.
-
 Lemma c5_no_es cfg : forall l p, existsb is_es l = false -> c5 cfg p l = true.
 Proof.
   induction l as [|t r IH]; intros p H; [reflexivity|]. simpl in H. apply orb_false_iff in H as [H1 H2].
@@ -378,19 +329,17 @@ Lemma combine_inv cfg unl t rest :
   /\ is_hookrun (fst (combine t rest)) = true
   /\ t_hook (fst (combine t rest)) = t_hook t
   /\ should_run false (fst (combine t rest)) = true
-  /\ (is_sync t = false -> allsync (fst (combine t rest)) = false)
   /\ (forallb plain (t :: rest) = true -> forallb plain (fst (combine t rest) :: snd (combine t rest)) = true).
 Proof.
   intros Hqi Hhr Hv0 Hsr Hst. unfold combine.
   destruct (take_block t rest) as [B rest'] eqn:TB.
   destruct (take_block_spec t rest B rest' TB) as [Erest HB].
   destruct B as [|x0 bl].
-  { cbn [fst snd]. split; [exact Hqi|]. split; [exact Hhr|]. split; [reflexivity|]. split; [exact Hsr|].
-    split; [apply not_sync_not_allsync | auto]. }
+  { cbn [fst snd]. split; [exact Hqi|]. split; [exact Hhr|]. split; [reflexivity|]. split; [exact Hsr|]. auto. }
   remember (x0 :: bl) as B eqn:EB.
   assert (Bne : nilb B = false) by (subst B; reflexivity). clear EB x0 bl.
   cbn [fst snd]. subst rest.
-  unfold qi in Hqi. rewrite !andb_true_iff in Hqi. destruct Hqi as [[[[Htk Hsf] Hstf] Hes] Hc5].
+  unfold qi in Hqi. rewrite !andb_true_iff in Hqi. destruct Hqi as [[[Htk Hsf] Hstf] Hc5].
   cbn [forallb] in Htk. apply andb_true_iff in Htk as [Htk_t Htk_r].
   rewrite forallb_app in Htk_r. apply andb_true_iff in Htk_r as [Htk_B Htk_r].
   apply (tk_hr cfg unl t Hhr) in Htk_t. destruct Htk_t as [F1 F2 F3 F4 F5].
@@ -447,31 +396,16 @@ Proof.
     - unfold is_st. cbn [t' set_combined t_btype]. fold (is_st t). rewrite Hst.
       cbn [t' set_combined t_ctxs]. now apply forallb_compact.
     - exact F5. }
-  split; [|split; [exact Hhr|split; [reflexivity|split; [exact SR'|split]]]].
+  split; [|split; [exact Hhr|split; [reflexivity|split; [exact SR'|]]]].
   - unfold qi. rewrite !andb_true_iff. repeat split.
     + cbn [forallb]. now rewrite TK', Htk_r.
     + cbn [flat_map]. cbn [t' set_combined t_ctxs]. unfold cs. apply first_then_compact.
       now rewrite <- app_assoc.
     + cbn [first_then]. unfold is_st at 1. cbn [t' set_combined t_btype]. fold (is_st t). rewrite Hst, Hnst_r.
       cbn [orb andb]. apply (first_then_suffix is_st (t :: B)). exact Hstf.
-    + cbn [es]. apply andb_true_iff. split; [|apply (es_suffix (t :: B)); exact Hes].
-      destruct (existsb is_es rest') eqn:Ex; [|reflexivity]. cbn [negb orb].
-      pose proof (es_front (t :: B) rest' Hes Ex) as Bo. cbn [forallb] in Bo. apply andb_true_iff in Bo as [Bt BB].
-      assert (At : allsync t = true).
-      { unfold bootish in Bt. rewrite Hhr, Hst in Bt. exact Bt. }
-      unfold bootish. rewrite orb_true_iff. right.
-      unfold allsync in *. unfold is_bkube in *. cbn [t' set_combined t_btype t_ctxs].
-      apply andb_true_iff in At as [At A3]. apply andb_true_iff in At as [A1 A2].
-      rewrite A1, Ecs. cbn [negb andb]. apply forallb_compact. rewrite forallb_app, A3. cbn [andb].
-      rewrite forallb_flat_map. apply forallb_forall. intros x Hx.
-      pose proof (forallb_In _ _ x BB Hx) as Bx. unfold bootish in Bx.
-      destruct (HBfacts x Hx) as (_ & _ & Sx & _). rewrite (forallb_In _ _ x HBhr Hx), Sx in Bx. cbn in Bx.
-      unfold allsync in Bx. now apply andb_true_iff in Bx as [_ Bx].
     + cbn [c5] in *. unfold is_hookrun in Hhr. destruct (t_type t) eqn:Ty; try discriminate.
       cbn [t' set_combined t_type]. rewrite Ty. cbn [t' set_combined t_mids]. unfold ms.
       rewrite (c5_hookruns cfg B _ rest' HBhr) in Hc5. now rewrite app_assoc.
-  - intros Sy. destruct (allsync t') eqn:A; [|reflexivity]. apply allsync_is_sync in A.
-    apply Hns', nosync_not_sync in Sy. congruence.
   - intros Pl. cbn [forallb] in *. apply andb_true_iff in Pl as [Pt Pr].
     rewrite forallb_app in Pr. apply andb_true_iff in Pr as [PB Pr]. rewrite Pr, andb_true_r.
     unfold plain in Pt. rewrite !andb_true_iff in Pt. destruct Pt as [[[P1 P2] P3] P4].
@@ -579,7 +513,7 @@ Qed.
 
 Definition run_ok (cfg : config) (run : option bool) (items : list task) : bool :=
   match run, items with
-  | Some sy, t :: _ => is_hookrun t && should_run (hook_v0 cfg (t_hook t)) t && (sy || negb (allsync t))
+  | Some _, t :: _ => is_hookrun t && should_run (hook_v0 cfg (t_hook t)) t
   | _, _ => true
   end.
 
@@ -597,19 +531,18 @@ Proof. intros Ty F. unfold advance_q at 1. rewrite Ty, F. reflexivity. Qed.
 
 Lemma qi_tail cfg unl t rest : qi cfg unl (t :: rest) = true ->
   tk cfg unl t = true /\ forallb (tk cfg unl) rest = true
-  /\ first_then is_ksync (flat_map t_ctxs rest) = true /\ first_then is_st rest = true /\ es rest = true.
+  /\ first_then is_ksync (flat_map t_ctxs rest) = true /\ first_then is_st rest = true.
 Proof.
-  unfold qi. rewrite !andb_true_iff. intros [[[[H1 H2] H3] H4] H5]. cbn [forallb] in H1.
+  unfold qi. rewrite !andb_true_iff. intros [[[H1 H2] H3] H5]. cbn [forallb] in H1.
   apply andb_true_iff in H1 as [H1a H1b]. repeat split; auto.
   - cbn [flat_map] in H2. now apply first_then_suffix in H2.
   - cbn [first_then] in H3. now apply andb_true_iff in H3 as [_ H3].
-  - cbn [es] in H4. now apply andb_true_iff in H4 as [_ H4].
 Qed.
 
 Lemma qi_intro cfg unl items :
   forallb (tk cfg unl) items = true -> first_then is_ksync (flat_map t_ctxs items) = true ->
-  first_then is_st items = true -> es items = true -> c5 cfg unl items = true -> qi cfg unl items = true.
-Proof. intros H1 H2 H3 H4 H5. unfold qi. now rewrite H1, H2, H3, H4, H5. Qed.
+  first_then is_st items = true -> c5 cfg unl items = true -> qi cfg unl items = true.
+Proof. intros H1 H2 H3 H5. unfold qi. now rewrite H1, H2, H3, H5. Qed.
 
 Lemma qi_c5 cfg unl items : qi cfg unl items = true -> c5 cfg unl items = true.
 Proof. unfold qi. rewrite !andb_true_iff. intros [_ H]. exact H. Qed.
@@ -666,7 +599,7 @@ Proof.
   { rewrite advance_q_O. now apply post_here. }
   destruct items as [|t rest].
   { rewrite advance_q_nil. now apply post_here. }
-  destruct (qi_tail cfg _ t rest Hqi) as (Tt & Tr & Sf & Stf & Es).
+  destruct (qi_tail cfg _ t rest Hqi) as (Tt & Tr & Sf & Stf).
   pose proof (qi_c5 cfg _ _ Hqi) as C5. cbn [c5] in C5.
   destruct (t_type t) eqn:Ty.
   - (* HookRun *)
@@ -676,8 +609,7 @@ Proof.
     pose proof (proj1 (tk_hr cfg _ t Hhr) Tt) as [F1 F2 F3 F4 F5].
     destruct (should_run (hook_v0 cfg (t_hook t)) t) eqn:SR.
     + assert (RO : run_ok cfg (Some (is_sync t)) (t :: rest) = true).
-      { unfold run_ok. rewrite Hhr, SR. cbn [andb]. destruct (is_sync t) eqn:Sy; [reflexivity|].
-        now rewrite (not_sync_not_allsync t Sy). }
+      { unfold run_ok. now rewrite Hhr, SR. }
       destruct (negb (hook_v0 cfg (t_hook t)) && should_combine t && qok (t_queue t)) eqn:Cb;
         [|now apply post_here].
       apply andb_true_iff in Cb as [Cb Cq]. apply andb_true_iff in Cb as [Cv _]. apply negb_true_iff in Cv.
@@ -685,11 +617,10 @@ Proof.
       { destruct (is_st t) eqn:St; [|reflexivity]. exfalso. rewrite !andb_true_iff in F4.
         destruct F4 as [[[_ F4] _] _]. apply N.eqb_eq in F4. rewrite F4, Hq in Cq. discriminate. }
       rewrite Cv in SR.
-      destruct (combine_inv cfg _ t rest Hqi Hhr Cv SR St) as (C1 & C2 & C3 & C4 & C6 & _).
+      destruct (combine_inv cfg _ t rest Hqi Hhr Cv SR St) as (C1 & C2 & C3 & C4 & _).
       destruct (combine t rest) as [t' rest']. cbn [fst snd] in *.
       apply post_here; [exact C1 | exact Hg|].
-      unfold run_ok. rewrite C2, C3, Cv, C4. cbn [andb]. destruct (is_sync t) eqn:Sy; [reflexivity|].
-      now rewrite (C6 eq_refl).
+      unfold run_ok. now rewrite C2, C3, Cv, C4.
     + (* skipped Synchronization *)
       set (sh1 := mkSh (s_sched_on sh) (s_unlocked sh ++ t_mids t) (s_mon_started sh)).
       apply (post_weaken sh sh1 _ (t_mids t)); [reflexivity | exact F3|].
@@ -701,7 +632,7 @@ Proof.
   - (* EnableKube *)
     assert (Hhr : is_hookrun t = false) by (unfold is_hookrun; now rewrite Ty).
     destruct (tk_not_hookrun cfg _ t Hhr Tt) as [Ct St].
-    unfold qi in Hqi. rewrite !andb_true_iff in Hqi. destruct Hqi as [[[[_ _] Hstf] _] _].
+    unfold qi in Hqi. rewrite !andb_true_iff in Hqi. destruct Hqi as [[[_ _] Hstf] _].
     pose proof (first_then_head_not is_st t rest Hstf St) as Nst.
     destruct (find_hook cfg (t_hook t)) as [h|] eqn:F.
     + rewrite (enable_kube_creates_syncs fuel cfg qok t rest sh h Ty F).
@@ -709,19 +640,16 @@ Proof.
       apply (post_weaken sh sh1 _ []); [cbn; now rewrite app_nil_r | reflexivity|].
       apply IH; [|exact Hg].
       assert (Hsy : forall x, In x (map (sync_task h) (h_kube h)) ->
-                tk cfg (s_unlocked sh) x = true /\ allsync x = true /\ is_st x = false /\ is_hookrun x = true).
+                tk cfg (s_unlocked sh) x = true /\ forallb is_ksync (t_ctxs x) = true /\ is_st x = false /\ is_hookrun x = true).
       { intros x Hx. apply in_map_iff in Hx as [b [<- Hb]]. split; [|repeat split].
         apply (tk_sync_task cfg _ (t_hook t) h b W F Hb). }
       change (s_unlocked sh1) with (s_unlocked sh).
       apply qi_intro.
       * rewrite forallb_app, Tr, andb_true_r. apply forallb_forall. intros x Hx. apply (Hsy x Hx).
       * rewrite flat_map_app. apply first_then_app_all; [|exact Sf].
-        rewrite forallb_flat_map. apply forallb_forall. intros x Hx. destruct (Hsy x Hx) as (_ & A & _).
-        unfold allsync in A. now apply andb_true_iff in A as [_ A].
+        rewrite forallb_flat_map. apply forallb_forall. intros x Hx. apply (Hsy x Hx).
       * apply first_then_all_not. rewrite forallb_app, Nst, andb_true_r.
         apply forallb_forall. intros x Hx. destruct (Hsy x Hx) as (_ & _ & A & _). now rewrite A.
-      * apply es_app_boot; [|exact Es]. apply forallb_forall. intros x Hx. destruct (Hsy x Hx) as (_ & A & _).
-        unfold bootish. rewrite A. apply orb_true_r.
       * rewrite c5_hookruns.
         -- assert (E : flat_map t_mids (map (sync_task h) (h_kube h)) = hook_mons cfg (t_hook t)).
            { unfold hook_mons. rewrite F. apply sync_task_mids. }
@@ -744,8 +672,7 @@ Qed.
 (* named queues hold plain tasks only: the worker starts the head, nothing else happens *)
 Lemma advance_q_plain fuel items sh :
   qi cfg (s_unlocked sh) items = true -> forallb plain items = true ->
-  let '(items', run, sh') := advance_q fuel cfg qok items sh in
-  forallb plain items' = true /\ match run with Some true => false | _ => true end = true.
+  forallb plain (fst (fst (advance_q fuel cfg qok items sh))) = true.
 Proof.
   intros Hqi Hp. destruct fuel as [|fuel]; [rewrite advance_q_O; auto|].
   destruct items as [|t rest]; [rewrite advance_q_nil; auto|].
@@ -759,7 +686,7 @@ Proof.
   rewrite SR, Sy.
   destruct (negb (hook_v0 cfg (t_hook t)) && should_combine t && qok (t_queue t)) eqn:Cb; [|auto].
   apply andb_true_iff in Cb as [Cb _]. apply andb_true_iff in Cb as [Cv _]. apply negb_true_iff in Cv.
-  destruct (combine_inv cfg _ t rest Hqi P1 Cv (SR false) P3) as (_ & _ & _ & _ & _ & C).
+  destruct (combine_inv cfg _ t rest Hqi P1 Cv (SR false) P3) as (_ & _ & _ & _ & C).
   destruct (combine t rest) as [t' rest']. cbn [fst snd] in *. auto.
 Qed.
 
@@ -770,17 +697,17 @@ End Worker.
 Lemma qinv_elim cfg unl q : qinv cfg unl q = true ->
   qi cfg unl (q_items q) = true
   /\ (match q_running q, q_items q with
-      | Some sy, t :: _ => is_hookrun t && should_run (hook_v0 cfg (t_hook t)) t && (sy || q_delay q || negb (allsync t))
+      | Some _, t :: _ => is_hookrun t && should_run (hook_v0 cfg (t_hook t)) t
       | _, _ => true end) = true
-  /\ (N.eqb (q_name q) 0 || forallb plain (q_items q) && match q_running q with Some true => false | _ => true end) = true.
+  /\ (N.eqb (q_name q) 0 || forallb plain (q_items q)) = true.
 Proof. unfold qinv. rewrite !andb_true_iff. intros [[H1 H2] H3]. auto. Qed.
 
 Lemma qinv_intro cfg unl q :
   qi cfg unl (q_items q) = true ->
   (match q_running q, q_items q with
-   | Some sy, t :: _ => is_hookrun t && should_run (hook_v0 cfg (t_hook t)) t && (sy || q_delay q || negb (allsync t))
+   | Some _, t :: _ => is_hookrun t && should_run (hook_v0 cfg (t_hook t)) t
    | _, _ => true end) = true ->
-  (N.eqb (q_name q) 0 || forallb plain (q_items q) && match q_running q with Some true => false | _ => true end) = true ->
+  (N.eqb (q_name q) 0 || forallb plain (q_items q)) = true ->
   qinv cfg unl q = true.
 Proof. intros H1 H2 H3. unfold qinv. now rewrite H1, H2, H3. Qed.
 
@@ -815,10 +742,8 @@ Proof.
       apply (qinv_mono cfg (s_unlocked sh1)); [now apply (sub_of_app _ _ ex)|].
       apply qinv_intro; cbn [q_items q_running q_delay q_name].
       * exact P1.
-      * unfold run_ok in P3. destruct run as [sy|]; [|reflexivity]. destruct items as [|t its]; [reflexivity|].
-        now rewrite orb_false_r.
-      * apply orb_true_iff in Q3 as [Q3|Q3]; [now rewrite Q3|].
-        apply andb_true_iff in Q3 as [Q3 _]. destruct (PP Q3) as [PP1 PP2]. now rewrite PP1, PP2, orb_true_r.
+      * exact P3.
+      * apply orb_true_iff in Q3 as [Q3|Q3]; [now rewrite Q3|]. now rewrite (PP Q3), orb_true_r.
     + exists (ex1 ++ ex). split; [now rewrite I3, P4, app_assoc | now rewrite forallb_app, P5, I4].
 Qed.
 
@@ -852,14 +777,13 @@ Qed.
 
 Lemma plain_facts t : plain t = true ->
   is_hookrun t = true /\ nosync t = true /\ is_st t = false /\ t_mids t = [] /\ is_es t = false
-  /\ is_sync t = false /\ allsync t = false.
+  /\ is_sync t = false.
 Proof.
   unfold plain. rewrite !andb_true_iff. intros [[[P1 P2] P3] P4]. apply negb_true_iff in P3.
   pose proof (nosync_not_sync t P2) as Sy.
   repeat split; auto.
   - destruct (t_mids t); [reflexivity | discriminate].
   - unfold is_hookrun in P1. unfold is_es. destruct (t_type t); auto; discriminate.
-  - now apply not_sync_not_allsync.
 Qed.
 
 (* tasks that the events handler may append *)
@@ -871,7 +795,7 @@ Proof.
   intros Hqi Hex.
   assert (Hp : forall x, In x ex -> plain x = true /\ tk cfg unl x = true).
   { intros x Hx. pose proof (forallb_In _ _ x Hex Hx) as A. now apply andb_true_iff in A. }
-  unfold qi in Hqi. rewrite !andb_true_iff in Hqi. destruct Hqi as [[[[H1 H2] H3] H4] H5].
+  unfold qi in Hqi. rewrite !andb_true_iff in Hqi. destruct Hqi as [[[H1 H2] H3] H5].
   assert (Ees : existsb is_es ex = false).
   { destruct (existsb is_es ex) eqn:E; [|reflexivity]. apply existsb_exists in E as [x [Hx Ex]].
     destruct (Hp x Hx) as [Px _]. apply plain_facts in Px. destruct Px as (_ & _ & _ & _ & Px & _). congruence. }
@@ -881,7 +805,6 @@ Proof.
     apply forallb_forall. intros x Hx. destruct (Hp x Hx) as [Px _]. apply plain_facts in Px. apply Px.
   - apply first_then_snoc; [exact H3|]. apply forallb_forall. intros x Hx. destruct (Hp x Hx) as [Px _].
     apply plain_facts in Px. destruct Px as (_ & _ & Px & _). now rewrite Px.
-  - now apply es_snoc.
   - now apply c5_snoc.
 Qed.
 
@@ -896,10 +819,10 @@ Proof.
   - now apply qi_snoc.
   - destruct (q_running q) as [sy|]; [|reflexivity]. destruct (q_items q) as [|t its]; [|exact Q2].
     cbn [app]. destruct ex as [|x ex']; [reflexivity|]. cbn [forallb] in Hex. apply andb_true_iff in Hex as [Hx _].
-    apply andb_true_iff in Hx as [Px _]. apply plain_facts in Px. destruct Px as (P1 & _ & _ & _ & _ & P6 & P7).
-    rewrite P1, P7. unfold should_run. rewrite P6. cbn. now rewrite !orb_true_r.
-  - apply orb_true_iff in Q3 as [Q3|Q3]; [now rewrite Q3|]. apply andb_true_iff in Q3 as [Q3 Q4].
-    rewrite forallb_app, Q3, Q4, andb_true_r. cbn [andb].
+    apply andb_true_iff in Hx as [Px _]. apply plain_facts in Px. destruct Px as (P1 & _ & _ & _ & _ & P6).
+    rewrite P1. unfold should_run. now rewrite P6.
+  - apply orb_true_iff in Q3 as [Q3|Q3]; [now rewrite Q3|].
+    rewrite forallb_app, Q3. cbn [andb].
     assert (E : forallb plain ex = true); [|now rewrite E, orb_true_r].
     apply forallb_forall. intros x Hx. pose proof (forallb_In _ _ x Hex Hx) as A. now apply andb_true_iff in A as [A _].
 Qed.
@@ -942,7 +865,7 @@ Qed.
 
 Definition fin_unl (q : qstate) (ok : bool) (unl : list N) : list N :=
   match q_running q, q_items q, q_delay q with
-  | Some sync, t :: _, false => if (ok || t_allow t) && sync then unl ++ t_mids t else unl
+  | Some _, t :: _, false => if ok || t_allow t then unl ++ t_mids t else unl
   | _, _, _ => unl
   end.
 
@@ -961,7 +884,7 @@ Qed.
 Lemma sub_fin_unl q ok unl : sub unl (fin_unl q ok unl).
 Proof.
   unfold fin_unl. destruct (q_running q); [|apply sub_refl]. destruct (q_items q); [apply sub_refl|].
-  destruct (q_delay q); [apply sub_refl|]. destruct ((ok || t_allow t) && b); [apply sub_app_l | apply sub_refl].
+  destruct (q_delay q); [apply sub_refl|]. destruct (ok || t_allow t); [apply sub_app_l | apply sub_refl].
 Qed.
 
 Lemma qinv_finish_one cfg unl ok stp wait q :
@@ -972,45 +895,34 @@ Proof.
   unfold finish_one, fin_unl in *.
   destruct (q_running q) as [sy|] eqn:R; [|exact HQ']. destruct (q_items q) as [|t rest] eqn:I; [exact HQ'|].
   destruct (q_delay q) eqn:D; [exact HQ'|].
-  rewrite !andb_true_iff in Q2. destruct Q2 as [[Hhr SR] RS]. rewrite orb_false_r in RS.
-  destruct (qi_tail cfg unl t rest Q1) as (Tt & Tr & Sf & Stf & Es).
+  apply andb_true_iff in Q2 as [Hhr SR].
+  destruct (qi_tail cfg unl t rest Q1) as (Tt & Tr & Sf & Stf).
   pose proof (qi_c5 cfg _ _ Q1) as C5. cbn [c5] in C5.
   assert (Ty : t_type t = HookRun) by (unfold is_hookrun in Hhr; destruct (t_type t); auto; discriminate).
   rewrite Ty in C5.
-  assert (Q3n : forall l run, (forallb plain (t :: rest) = true -> forallb plain l = true) ->
-                match run with Some true => false | _ => true end = true ->
-                (N.eqb (q_name q) 0 || forallb plain l && match run with Some true => false | _ => true end) = true).
-  { intros l run Pl Rn. apply orb_true_iff in Q3 as [Q3|Q3]; [now rewrite Q3|].
-    apply andb_true_iff in Q3 as [Q3 _]. now rewrite (Pl Q3), Rn, orb_true_r. }
+  assert (Q3n : forall l, (forallb plain (t :: rest) = true -> forallb plain l = true) ->
+                (N.eqb (q_name q) 0 || forallb plain l) = true).
+  { intros l Pl. apply orb_true_iff in Q3 as [Q3|Q3]; [now rewrite Q3|]. now rewrite (Pl Q3), orb_true_r. }
   destruct stp.
   { (* shutdown: the result is not applied *)
     apply qinv_intro; cbn [q_items q_running q_delay q_name].
-    - apply (qi_mono cfg unl); [|exact Q1]. destruct ((ok || t_allow t) && sy); [apply sub_app_l | apply sub_refl].
+    - apply (qi_mono cfg unl); [|exact Q1]. destruct (ok || t_allow t); [apply sub_app_l | apply sub_refl].
     - reflexivity.
-    - apply (Q3n (t :: rest) None); auto. }
-  destruct (ok || t_allow t) eqn:Su; cbn [andb].
-  - (* success: the task leaves the queue *)
+    - apply (Q3n (t :: rest)); auto. }
+  destruct (ok || t_allow t) eqn:Su.
+  - (* success: the task leaves the queue, the monitors it carries are unlocked *)
     apply qinv_intro; cbn [q_items q_running q_delay q_name]; [|reflexivity|].
-    + destruct sy.
-      * apply qi_intro; auto. apply forallb_forall. intros x Hx. apply (tk_mono cfg unl); [apply sub_app_l|].
-        apply (forallb_In _ _ x Tr Hx).
-      * cbn [orb] in RS. apply negb_true_iff in RS. apply qi_intro; auto.
-        destruct (existsb is_es rest) eqn:Ex; [|now apply c5_no_es].
-        unfold qi in Q1. rewrite !andb_true_iff in Q1. destruct Q1 as [[[_ _] Hes] _]. cbn [es] in Hes.
-        rewrite Ex in Hes. cbn [negb orb] in Hes. apply andb_true_iff in Hes as [Bo _].
-        unfold bootish in Bo. rewrite Hhr, RS, orb_false_r in Bo. cbn [negb orb] in Bo.
-        pose proof (proj1 (tk_hr cfg unl t Hhr) Tt) as [_ _ _ F4 _]. rewrite Bo in F4.
-        rewrite !andb_true_iff in F4. destruct F4 as [[[F4 _] _] _].
-        destruct (t_mids t); [|discriminate]. apply (c5_mono cfg rest _ _ (sub_nil_r _) C5).
-    + apply (Q3n rest None); [|reflexivity]. cbn [forallb]. intros P. now apply andb_true_iff in P as [_ P].
+    + apply qi_intro; auto. apply forallb_forall. intros x Hx. apply (tk_mono cfg unl); [apply sub_app_l|].
+      apply (forallb_In _ _ x Tr Hx).
+    + apply (Q3n rest). cbn [forallb]. intros P. now apply andb_true_iff in P as [_ P].
   - (* failure: the task stays, its failure count grows *)
     assert (QF : qi cfg unl (incr_fail t :: rest) = true) by exact Q1.
     destruct wait; apply qinv_intro; cbn [q_items q_running q_delay q_name]; try exact QF; try reflexivity.
     + change (is_hookrun (incr_fail t)) with (is_hookrun t).
       change (should_run (hook_v0 cfg (t_hook (incr_fail t))) (incr_fail t)) with (should_run (hook_v0 cfg (t_hook t)) t).
       now rewrite Hhr, SR.
-    + apply (Q3n (incr_fail t :: rest) (Some false)); [|reflexivity]. intros P. exact P.
-    + apply (Q3n (incr_fail t :: rest) None); [|reflexivity]. intros P. exact P.
+    + apply (Q3n (incr_fail t :: rest)). intros P. exact P.
+    + apply (Q3n (incr_fail t :: rest)). intros P. exact P.
 Qed.
 
 Lemma qinv_elapse_one cfg unl q : qinv cfg unl q = true -> qinv cfg unl (elapse_one q) = true.
@@ -1018,8 +930,7 @@ Proof.
   intros HQ. unfold elapse_one. destruct (q_delay q); [|exact HQ].
   destruct (qinv_elim cfg unl q HQ) as (Q1 & Q2 & Q3).
   apply qinv_intro; cbn [q_items q_running q_delay q_name]; [exact Q1 | reflexivity|].
-  apply orb_true_iff in Q3 as [Q3|Q3]; [now rewrite Q3|]. apply andb_true_iff in Q3 as [Q3 _].
-  now rewrite Q3, orb_true_r.
+  exact Q3.
 Qed.
 
 (* ---- bootstrap *)
@@ -1068,10 +979,6 @@ Proof.
   - apply first_then_app_all.
     + apply forallb_forall. intros x Hx. apply (HS x Hx).
     + apply first_then_all_not. apply forallb_forall. intros x Hx. destruct (HE x Hx) as (_ & E & _). now rewrite E.
-  - apply es_app_boot.
-    + apply forallb_forall. intros x Hx. destruct (HS x Hx) as (_ & E & _). unfold bootish. rewrite E. now rewrite orb_true_r.
-    + rewrite <- (app_nil_r (flat_map enable_tasks cfg)). apply es_app_boot; [|reflexivity].
-      apply forallb_forall. intros x Hx. destruct (HE x Hx) as (_ & _ & E & _). unfold bootish. now rewrite E.
   - rewrite c5_hookruns.
     + apply c5_enables. intros h Hh. now apply find_hook_in.
     + apply forallb_forall. intros x Hx. apply (HS x Hx).
@@ -1311,16 +1218,14 @@ Qed.
 
 Lemma head_facts cfg s q t r sy : s_ok cfg s -> In q (queues s) -> q_running q = Some sy -> q_items q = t :: r ->
   tk_facts cfg (unlocked s) t /\ is_hookrun t = true /\ should_run (hook_v0 cfg (t_hook t)) t = true
-  /\ (sy || q_delay q || negb (allsync t)) = true
-  /\ (N.eqb (q_name q) 0 = true \/ (forallb plain (t :: r) = true /\ sy = false)).
+  /\ (N.eqb (q_name q) 0 = true \/ forallb plain (t :: r) = true).
 Proof.
   intros [H1 _] Hq R I. pose proof (forallb_In _ _ q H1 Hq) as Qq.
   destruct (qinv_elim cfg _ q Qq) as (Q1 & Q2 & Q3). rewrite R, I in *.
-  rewrite !andb_true_iff in Q2. destruct Q2 as [[Hhr SR] RS].
+  apply andb_true_iff in Q2 as [Hhr SR].
   destruct (qi_tail cfg _ t r Q1) as (Tt & _).
-  split; [now apply tk_hr|]. split; [exact Hhr|]. split; [exact SR|]. split; [exact RS|].
-  apply orb_true_iff in Q3 as [Q3|Q3]; [now left|]. right. apply andb_true_iff in Q3 as [Q3 Q4].
-  split; [exact Q3|]. destruct sy; [discriminate | reflexivity].
+  split; [now apply tk_hr|]. split; [exact Hhr|]. split; [exact SR|].
+  apply orb_true_iff in Q3 as [Q3|Q3]; [now left | now right].
 Qed.
 
 Lemma clause3 cfg s : s_ok cfg s ->
@@ -1342,7 +1247,7 @@ Lemma clause6 cfg s : s_ok cfg s ->
 Proof.
   intros HS. apply forallb_forall. intros e He.
   apply in_execs_inv in He as (q & t & r & sy & Hq & R & I & D & ->).
-  destruct (head_facts cfg s q t r sy HS Hq R I) as (_ & _ & _ & _ & [Z|[Pl _]]).
+  destruct (head_facts cfg s q t r sy HS Hq R I) as (_ & _ & _ & [Z|Pl]).
   - unfold exec_of. cbn [eo_queue eo_ctxs]. rewrite Z. now destruct (existsb _ _).
   - cbn [forallb] in Pl. apply andb_true_iff in Pl as [Pt _]. apply plain_facts in Pt. destruct Pt as (_ & Ns & _).
     unfold exec_of. cbn [eo_queue eo_ctxs].
@@ -1360,7 +1265,7 @@ Lemma clause5 cfg s : s_ok cfg s ->
 Proof.
   intros [H1 _]. apply forallb_forall. intros qo Hqo. apply in_so_queues in Hqo as (q & Hq & -> & _).
   pose proof (forallb_In _ _ q H1 Hq) as Qq. destruct (qinv_elim cfg _ q Qq) as (Q1 & _).
-  unfold qi in Q1. rewrite !andb_true_iff in Q1. destruct Q1 as [[[[Tk _] _] _] _].
+  unfold qi in Q1. rewrite !andb_true_iff in Q1. destruct Q1 as [[[Tk _] _] _].
   apply forallb_forall. intros t Ht. pose proof (forallb_In _ _ t Tk Ht) as Tt.
   destruct (t_type t) eqn:Ty; try reflexivity. destruct (t_btype t) eqn:Bt; try reflexivity.
   assert (Hhr : is_hookrun t = true) by (unfold is_hookrun; now rewrite Ty).
@@ -1430,10 +1335,11 @@ Proof.
     unfold fin_unl in H. destruct (q_running q) as [sy|] eqn:R; [|left; now apply Old].
     destruct (q_items q) as [|t r] eqn:I; [left; now apply Old|].
     destruct (q_delay q) eqn:D; [left; now apply Old|].
-    destruct ((ok || t_allow t) && sy) eqn:C; [|left; now apply Old].
+    destruct (ok || t_allow t) eqn:C; [|left; now apply Old].
     apply in_app_or in H as [H|H]; [left; now apply Old|]. right.
-    apply andb_true_iff in C as [_ ->].
-    destruct (head_facts cfg s q t r true HS Hq R I) as (_ & _ & _ & _ & [Z|[_ Z]]); [|discriminate].
+    destruct (head_facts cfg s q t r sy HS Hq R I) as (_ & _ & _ & [Z|Pl]).
+    2:{ exfalso. cbn [forallb] in Pl. apply andb_true_iff in Pl as [Pl _]. apply plain_facts in Pl.
+        destruct Pl as (_ & _ & _ & Mi & _). rewrite Mi in H. destruct H. }
     apply N.eqb_eq in Z. rewrite <- En, Z. cbn [N.eqb andb].
     destruct (find_q_main cfg s q (inv_names s HI) Hq) as (qo & Fq & Iq). rewrite Z in Fq. rewrite Fq, Iq, I.
     now apply mem_N_In. }
@@ -1492,9 +1398,10 @@ Lemma tk_st_like cfg unl t : tk cfg unl t = true -> is_st t = true -> st_like t.
 Proof.
   intros Tt St. destruct (is_hookrun t) eqn:Hhr.
   - apply (tk_hr cfg unl t Hhr) in Tt. destruct Tt as [_ _ _ F4 _]. rewrite St in F4.
-    rewrite !andb_true_iff in F4. destruct F4 as [[[_ F4] _] F5]. apply N.eqb_eq in F4. apply negb_true_iff in F5.
+    rewrite !andb_true_iff in F4. destruct F4 as [[[F6 F4] _] F5]. apply N.eqb_eq in F4. apply negb_true_iff in F5.
     unfold is_hookrun in Hhr. unfold is_st in St. unfold st_like.
-    destruct (t_type t); try discriminate. destruct (t_btype t); try discriminate. auto.
+    destruct (t_type t); try discriminate. destruct (t_btype t); try discriminate.
+    destruct (t_mids t); [auto | discriminate].
   - destruct (tk_not_hookrun cfg unl t Hhr Tt) as [_ X]. congruence.
 Qed.
 
@@ -1503,7 +1410,7 @@ Lemma advance_q_st_hooks cfg qok unl fuel items sh : qok no_queue = false -> qi 
 Proof.
   intros Hq Hqi. destruct fuel as [|fuel]; [reflexivity|]. destruct items as [|t rest]; [reflexivity|].
   destruct (qi_tail cfg unl t rest Hqi) as (Tt & Tr & _).
-  unfold qi in Hqi. rewrite !andb_true_iff in Hqi. destruct Hqi as [[[_ Hst] _] _].
+  unfold qi in Hqi. rewrite !andb_true_iff in Hqi. destruct Hqi as [[_ Hst] _].
   destruct (is_st t) eqn:St.
   - rewrite (advance_q_startup fuel cfg qok t rest sh (tk_st_like cfg unl t Tt St) Hq). reflexivity.
   - pose proof (first_then_head_not is_st t rest Hst St) as Nr.
@@ -1551,7 +1458,7 @@ Proof.
   assert (Hd : st_hooks (t :: r) = if is_st t then t_hook t :: st_hooks r else st_hooks r).
   { unfold st_hooks. cbn [filter]. now destruct (is_st t). }
   assert (Al : is_st t = true -> t_allow t = false).
-  { intros St. now destruct (tk_st_like cfg unl t Tt St) as (_ & _ & _ & A). }
+  { intros St. now destruct (tk_st_like cfg unl t Tt St) as (_ & _ & _ & A & _). }
   destruct ok; cbn [orb andb].
   - rewrite Hd. now destruct (is_st t).
   - destruct (t_allow t) eqn:A.
@@ -1658,12 +1565,12 @@ Proof.
   - destruct (find_e_inv _ _ _ F) as [He En].
     apply in_execs_inv in He as (q & t' & r & sy & Hin & R & I & D & ->).
     cbn [exec_of eo_queue] in En.
-    destruct (head_facts cfg s q t' r sy HS Hin R I) as (TF & Hhr & _ & _ & Z).
+    destruct (head_facts cfg s q t' r sy HS Hin R I) as (TF & Hhr & _ & Z).
     rewrite (is_startup_exec_of cfg (unlocked s) q t' Hhr (proj2 (tk_hr cfg _ t' Hhr) TF)).
     cbn [exec_of eo_hook].
     destruct (is_st t') eqn:St.
     + assert (Zq : q_name q = 0).
-      { destruct Z as [Z|[Pl _]]; [now apply N.eqb_eq|]. cbn [forallb] in Pl. apply andb_true_iff in Pl as [Pl _].
+      { destruct Z as [Z|Pl]; [now apply N.eqb_eq|]. cbn [forallb] in Pl. apply andb_true_iff in Pl as [Pl _].
         apply plain_facts in Pl. destruct Pl as (_ & _ & X & _). congruence. }
       rewrite Hq in Hin. assert (Eqm : q = m) by (apply (same_name_head m Qs q ND Hin); congruence). subst q.
       rewrite I, En, N.eqb_refl, St. unfold in_handler, is_running. now rewrite R, D.
@@ -1733,7 +1640,7 @@ Proof.
     fold m' in Hst.
     rewrite (done_step_char s a done m Qs HI (conj H1 H2) Hq Hm).
     assert (GB : guard (step cfg s a) -> guard s).
-    { intros [G|G]; apply (guard_back s a m Qs HI Hq); [now right | left; now rewrite <- Emb]. }
+    { intros [G|G]; apply (guard_back s a m Qs HI Hq); [now right | left; rewrite Emb in G; exact G]. }
     assert (Simple : st_hooks (q_items m') = st_hooks (q_items m) -> dinv_p done (step cfg s a)).
     { intros E. constructor.
       - apply (d_prefix done s HD).
@@ -1757,8 +1664,8 @@ Proof.
       * exfalso. destruct G as [G|G].
         -- rewrite step_stopped, St in G. discriminate.
         -- pose proof (handler_return_stops_worker cfg s m true HI Hmin St) as HR. cbv zeta in HR.
-           rewrite C1 in HR. fold m' in HR. rewrite St in *. destruct HR as [HR _]. rewrite Emb in G. congruence.
-      * rewrite C1, N.eqb_refl, C2, C3 in Hst. cbn [negb andb] in Hst. rewrite Hd in Hst. cbn [tl] in Hst.
+           rewrite St, C1 in HR. destruct HR as [HR _]. rewrite Emb in G. unfold m' in G. congruence.
+      * cbn [negb andb] in Hst. rewrite Hd in Hst. cbn [tl] in Hst.
         rewrite Emi, Hst. exact E1.
 Qed.
 
